@@ -93,6 +93,7 @@ class C06(SchedProp):
         'CylcModel.C06.future_hold',
         'CylcModel.C06.hold_table_exact',
         'CylcModel.C06.hold_point_command',
+        'CylcModel.C06.start_hold_point',
         'CylcModel.C06.hold_persist',
         'CylcModel.C06.hold_persist_partial',
         'CylcModel.C06.hold_persist_counterexample',
@@ -111,7 +112,9 @@ class C06(SchedProp):
         'run; the real scheduler does the same: finding rehold-after-restart); proved instead: hold_persist (exact '
         'characterisation: flag kept, or held because beyond the hold point) and hold_persist_partial (exact '
         'preservation when no instance beyond the hold point was released individually). Missing in the frozen model: '
-        'manual trigger (the "or manually triggered" exemption has no counterpart), queue limits, the live-mode window '
+        'manual trigger (the "or manually triggered" exemption has no counterpart), queue limits (the correspondence uses '
+        'explicit queues that are unlimited - limit 0 - or far above reach; a hold point given at start-up is the op list '
+        '[setHoldPoint p] with an unobserved first state, so the theorems cover it), the live-mode window '
         'between queue release and job preparation (waiting_on_job_prep across main loops), kill (which holds), reload')
     technique = ('inductive invariants over op lists of a Lean scheduler model (Sched2) + trace correspondence with the '
                  'real Scheduler + a monitor judge on the observed traces')
@@ -121,9 +124,12 @@ class C06(SchedProp):
             'runahead P0-P3) driven through the real Scheduler by a seeded adaptive schedule of main loops, submit results, '
             'job messages and commands: hold / release of pooled and of not yet spawned instances, set / release hold '
             'point, stop (clean / now) followed by restart (up to 2), pause / resume, stop point; three cases in four use '
+            'explicit internal queues (1-3 named queues with limit 0, default queue limit 0 / 100), in 30% a hold point '
+            'given at start-up (--hold-after), and '
             'a hold-centred command mix (a third of its hold commands aim at a task sitting in a queue), one of them with '
-            'job failures, submit failures and stale / duplicate messages, one in four the shared default mix; four '
-            'hand-written histories (queued-then-held, future hold, future hold across a restart, hold point) and the '
+            'job failures, submit failures and stale / duplicate messages, one in four the shared default mix; nine '
+            'hand-written histories (pause -> hold of a queued task -> resume, future hold, future hold across a restart, '
+            'hold point, start-up hold point; the queue-related ones also on unlimited default / named queues) and the '
             'witness of the recorded finding run first; non-trivial = a hold or hold-point command was issued; classes = (kind, commands '
             'used, restart with holds in force, held-at-spawn, held while queued, launch-count)')
     kinds = ('cmd', 'cmdany')
